@@ -45,7 +45,7 @@ int main(int argc, char** argv) {
       for (auto& f : faults) {
         if (f.at != k) continue;
         mjtNum* tgt[] = {d->qpos, d->qvel, d->act, d->ctrl, d->qfrc_applied, d->xfrc_applied, d->mocap_pos};
-        int nn[] = {m->nq, m->nv, m->na, m->nu, m->nv, 6 * m->nbody, 3 * m->nmocap};
+        int nn[] = {(int)m->nq, (int)m->nv, (int)m->na, (int)m->nu, (int)m->nv, (int)(6 * m->nbody), (int)(3 * m->nmocap)};
         if (nn[f.loc] > 0) {
           int idx = f.loc == L_XFRC && m->nbody > 1 ? 6 + f.idx % (6 * (m->nbody - 1)) : f.idx % nn[f.loc];
           tgt[f.loc][idx] = vals[f.vi];
